@@ -101,6 +101,11 @@ def run_case(case, ctx):
         return
     sample = ref.sample(n, rng)
     sample = np.abs(sample[np.all(np.isfinite(sample), axis=1)])
+    # units as an input class: variables of very different magnitudes (metres against millimetres, seconds against hours)
+    unit = [(1.0, 1.0), (1.0, 1.0), (1e-3, 1.0), (1.0, 1e3), (1e2, 1e-2), (1.0, 1.0)][int(case["sub"]) % 6]
+    if unit != (1.0, 1.0) and case["round"] is None:
+        sample = sample * np.array(unit)
+        ctx.cls("units", f"{unit[0]:g}x{unit[1]:g}")
     if case["round"] is not None:
         sample = np.round(sample, case["round"])
     if case["zeros"] in ("y", "both"):
